@@ -431,7 +431,7 @@ def _names_stream(ctx, out):
         extra += prop_ids(sfx) + odd_ids(sfx) + gz_ids(sfx)
     cases += sorted(set(extra))
     if not ctx.thorough:
-        cases = rng.sample(cases, 1300) + sorted(set(extra))
+        cases = rng.sample(cases, 700) + sorted(set(extra))
     reqs = []
     for uid in cases:
         for sfx in (["fa"] if len(uid) < 12 and "fasta" not in uid else SFXS):
@@ -466,7 +466,7 @@ def correspondence(ctx):
     cfg = detect_cfg(ctx)
     _names_stream(ctx, out)
     rng = ctx.subrng("corr")
-    n_hist = ctx.budget(180, 4000)
+    n_hist = ctx.budget(110, 4000)
     for kind in ("dir", "sql"):
         hist = []
         for i in range(n_hist if kind == "dir" else n_hist // 2):
@@ -524,7 +524,7 @@ def correspondence(ctx):
     # Lean dictionary spec vs the Python oracle
     srng = ctx.subrng("spec-tie")
     reqs, wants = [], []
-    for i in range(ctx.budget(250, 4000)):
+    for i in range(ctx.budget(150, 4000)):
         kind = srng.choice(["dir", "sql"])
         sfx = srng.choice(SFXS)
         pool = prop_ids(sfx) + dot_family(sfx) + (odd_ids(sfx) if srng.random() < 0.4 else [])
@@ -818,9 +818,11 @@ SMALL = [
 def spec_check(ctx, budget):
     out = new_outcome(
         "real DataStoreDirectory / DataStoreSqlite vs the Python dictionary oracle, observed after every operation and on a freshly "
-        "re-opened store: exhaustive histories of <=3 write/write_not_completed/drop operations over {a, ba, a.<sfx>} in modes w,a "
+        "re-opened store: exhaustive histories of <=3 write/write_not_completed/drop operations over {a, ba, a.<sfx>} and over the dot family {x, x.y.<sfx>, x.y.z.<sfx>} in modes w,a "
         "then seeded random histories (1-40 ops, modes w/a/r, close+reopen) over identifiers that are suffixes/prefixes of one another "
-        "with and without the format suffix (+ a share of identifiers containing the suffix / foreign extensions); "
+        "with and without the format suffix, dot-delimited prefix families, synonym spellings ('results/<id>', 'sub/<id>') (+ a share of identifiers containing the suffix); "
+        "io stream: every kind of valid result object (incl. falsy ones: empty dict/list, 0, '', zero-row Table, zero-length alignment) and genuine NotCompleted "
+        "objects written through write_json / write_seqs / write_tabular / write_db .main() to directory and SQLite stores, membership + content/md5 vs the dictionary; "
         "non-trivial = distinct histories with >= 2 accepted state-changing operations"
     )
     rng = ctx.subrng(f"spec{budget}")
@@ -829,15 +831,30 @@ def spec_check(ctx, budget):
     atoms = [["w", i] for i in ids] + [["nc", i] for i in ids] + [["drop", i] for i in ["a", "ba", ""]]
     for n in (1, 2, 3):
         for tup in itertools.product(atoms, repeat=n):
-            if n == 3 and budget < 8 and rng.random() < 0.9:
+            if n == 3 and budget < 8 and rng.random() < 0.94:
                 continue
             for mode in ("w", "a"):
                 ops = [[*a, f"d{j}"] if a[0] != "drop" else list(a) for j, a in enumerate(tup)]
                 cases.append(("dir", "fasta", mode, ops))
-                if n <= 2 or rng.random() < 0.3:
+                if n == 1 or (n == 2 and (budget >= 8 or rng.random() < 0.5)) or (n == 3 and rng.random() < 0.3):
                     cases.append(("sql", "fasta", mode, ops))
+    # second exhaustive box: a dot-delimited prefix family (x, x.y, x.y.z), with the format suffix where the name has dots
+    ids2 = ["x", "x.y.fasta", "x.y.z.fasta"]
+    atoms2 = [["w", i] for i in ids2] + [["nc", i] for i in ids2] + [["drop", i] for i in ids2]
+    for n in (1, 2, 3):
+        for tup in itertools.product(atoms2, repeat=n):
+            if n == 3 and rng.random() < (0.96 if budget < 8 else 0.5):
+                continue
+            ops = [[*a, f"d{j}"] if a[0] != "drop" else list(a) for j, a in enumerate(tup)]
+            cases.append(("dir", "fasta", "w" if n < 3 or rng.random() < 0.5 else "a", ops))
+    # third exhaustive box (SQLite): the two spellings of one record, second operation after close + re-open in append mode
+    atoms3 = [["w", "b"], ["w", "results/b"], ["nc", "b"], ["nc", "results/b"], ["drop", "b"]]
+    for a1, a2 in itertools.product(atoms3, repeat=2):
+        for mode in ("w", "a"):
+            ops = [[*a1, "d0"] if a1[0] != "drop" else list(a1), ["unlock"], ["reopen", "a"], [*a2, "d1"] if a2[0] != "drop" else list(a2)]
+            cases.append(("sql", "fasta", mode, ops))
     small_n = len(cases)
-    for i in range(110 * budget):
+    for i in range(80 * budget):
         kind = "dir" if rng.random() < 0.65 else "sql"
         sfx = rng.choice(SFXS) if kind == "dir" else "fasta"
         pool = prop_ids(sfx) + (dot_family(sfx) if rng.random() < 0.5 else []) + (spec_odd_ids(sfx) if rng.random() < 0.25 else [])
